@@ -22,6 +22,7 @@
 #include <cstdlib>
 #include <cstring>
 #include <exception>
+#include <deque>
 #include <map>
 #include <memory>
 #include <optional>
@@ -227,6 +228,20 @@ struct state {
 };
 inline state G;
 
+inline void dump_partial();
+inline void write_all(int fd, const char* p, size_t n);
+// a scenario of these sizes logs a few KB; megabytes mean a runaway loop (e.g. an operation that keeps completing):
+// stop the process instead of exhausting memory, the runner reports it as `runaway`
+inline void check_log_overflow() {
+  if (G.log.size() > (6u << 20)) {
+    G.log.resize(64 << 10);
+    G.log.append("\n#OVERFLOW\n");
+    dump_partial();
+    const char m[] = "vf: event log overflow (runaway scenario)\n";
+    write_all(2, m, sizeof m - 1);
+    _exit(89);
+  }
+}
 inline void ev(const char* fmt, ...) {
   char buf[1024];
   va_list ap;
@@ -239,6 +254,7 @@ inline void ev(const char* fmt, ...) {
     n = sizeof buf - 1;
   G.log.append(buf, n);
   G.log.push_back('\n');
+  check_log_overflow();
 }
 inline void viol(const char* fmt, ...) {
   char buf[1024];
@@ -345,6 +361,21 @@ struct val : tracked<K_VAL, true> {
     return *this;
   }
 };
+// a value whose *move* constructor is a throw point as well (decay-copies of rvalues inside adaptors can fail)
+struct mval : val {
+  explicit mval(int i) noexcept : val(i) {}
+  mval(const mval& o) : val(o) {}
+  mval(mval&& o) noexcept(false) : val((maybe_throw("move"), std::move(static_cast<val&>(o)))) {}
+  mval& operator=(const mval& o) {
+    val::operator=(o);
+    return *this;
+  }
+  mval& operator=(mval&& o) noexcept(false) {
+    maybe_throw("move-assign");
+    val::operator=(std::move(static_cast<val&>(o)));
+    return *this;
+  }
+};
 inline int fresh_id() {
   return G.next_id++;
 }
@@ -394,7 +425,7 @@ inline void describe_exception(std::string& out, const std::exception_ptr& ep) {
 template <class T>
 void describe(std::string& out, const T& x) {
   using U = unifex::remove_cvref_t<T>;
-  if constexpr (std::is_same_v<U, val>) {
+  if constexpr (std::is_base_of_v<val, U>) {
     if (x.moved)
       out += "~";
     out += std::to_string(x.id);
@@ -610,6 +641,12 @@ int sched_id_of(const R& r) noexcept;
 // ---------------------------------------------------------------------------
 // M7: leaves
 // ---------------------------------------------------------------------------
+// values handed out by reference (LvalueValue leaves) live here until the end of the scenario
+inline std::deque<val>& lvalue_store() {
+  static std::deque<val> d;
+  return d;
+}
+
 template <class VT>
 struct leaf_values {
   template <template <typename...> class Variant, template <typename...> class Tuple>
@@ -627,7 +664,9 @@ struct leaf_values<void> {
   using apply = Variant<Tuple<>>;
 };
 
-template <class VT, unifex::_block::_enum B, bool SendsDone, bool Affine, bool IsSched>
+// LvalueValue: the value is handed to the receiver as `const val&` (adaptors that keep it must copy; copies can be
+// made to throw by fault injection) instead of as an rvalue
+template <class VT, unifex::_block::_enum B, bool SendsDone, bool Affine, bool IsSched, bool LvalueValue = false>
 struct leaf : tracked<K_LEAFSND> {
   int id;
   explicit leaf(int i) noexcept : id(i) {}
@@ -767,7 +806,14 @@ struct leaf : tracked<K_LEAFSND> {
           } else {
             int pid = fresh_id();
             ev("Lc %d %d v %d tag=%d", id, n, pid, G.cur_tag);
-            unifex::set_value(std::move(rcvr), val{pid});
+            if constexpr (LvalueValue) {
+              // the value lives in the harness (not in this operation state, which the receiver may destroy)
+              auto& keep = lvalue_store();
+              keep.emplace_back(pid);
+              unifex::set_value(std::move(rcvr), static_cast<const val&>(keep.back()));
+            } else {
+              unifex::set_value(std::move(rcvr), VT{pid});
+            }
           }
         }
         UNIFEX_CATCH(...) {
@@ -1091,6 +1137,7 @@ void run_program(MK&& mk) {
 #endif
   G.arena.release();
   free_source_now();
+  lvalue_store().clear();
   // end-of-scenario ledgers (M2, M3)
   if (!G.live.empty()) {
     int cnt[K_NKINDS] = {};
